@@ -120,6 +120,8 @@ def run(ctx):
         ctx.extra["random_ops"] = i
         chk.flush()
         base.history_stream(ctx, "C09")
+        base.probe_many_root_fields(ctx, "C09", kinds=("mutation",))
+        base.abandoned_stage(ctx, "C09")
         base.real_pool_stage(ctx, "C09", extra_oracle=c09_oracle, n_random=4 if ctx.tier == "quick" else 30, kinds=("mutation",))
     finally:
         W.close_private_loop()
@@ -129,6 +131,17 @@ def run(ctx):
 
 def replay(ctx, data):
     W.quiet()
+    if data.get("input", {}).get("probe") == "many-root-fields":
+        before = len(ctx.found)
+        base.probe_many_root_fields(ctx, "C09", kinds=("mutation",))
+        return len(ctx.found) == before
+    if data.get("input", {}).get("stream") == "abandoned":
+        before = len(ctx.found)
+        try:
+            base.abandoned_stage(ctx, "C09")
+        finally:
+            W.close_private_loop()
+        return len(ctx.found) == before
     if data.get("input", {}).get("stream") == "history":
         before = len(ctx.found)
         try:
